@@ -39,6 +39,10 @@ ResultOK(ev, x) ==
              /\ ev.res.lens = x.res.lens
              /\ [k \in 1 .. Len(ev.res.acts) |-> [k |-> ev.res.acts[k].k, v |-> ToSet(ev.res.acts[k].v)]] = x.res.acts
       [] x.rk = "mem"   -> ev.res <= x.res
+      [] x.rk = "plain" ->
+             /\ Vals(ev.res.fin) = x.res.fin
+             /\ [k \in 1 .. Len(ev.res.acts) |->
+                    PRes(ev.res.acts[k].k, ToSet(ev.res.acts[k].v), Vals(ev.res.acts[k].vs), ev.res.acts[k].n)] = x.res.res
 
 \* first reason for which the logged event differs from what the spec admits
 Why(ev, x, g) ==
